@@ -27,6 +27,17 @@ Proof. intros H. rewrite <- (n2b_b2n a), <- (n2b_b2n b), H. reflexivity. Qed.
 Lemma take_app {A} (a b : list A) : take (length a) (a ++ b) = Some (a, b).
 Proof. induction a as [|x a IH]; simpl; [reflexivity|]. rewrite IH. reflexivity. Qed.
 
+Lemma take_none_short {A} : forall n (l : list A), (length l < n)%nat -> take n l = None.
+Proof.
+  induction n as [|n IH]; intros l H; [inversion H|].
+  destruct l as [|x r]; [reflexivity|]. cbn [take]. rewrite IH by (cbn [length] in H; lia). reflexivity.
+Qed.
+Lemma take_n_take {A} n (l : list A) : take_n n l = take (N.to_nat n) l.
+Proof.
+  unfold take_n. destruct (N.ltb_spec (N.of_nat (length l)) n) as [H|H]; [|reflexivity].
+  symmetry. apply take_none_short. lia.
+Qed.
+
 Lemma take_spec {A} n : forall (l a b : list A),
   take n l = Some (a, b) -> l = a ++ b /\ length a = n.
 Proof.
